@@ -13,6 +13,7 @@ import (
 	"strings"
 
 	"github.com/dekarrin/rosed"
+	vh "github.com/dekarrin/rosed/verifhook"
 )
 
 type gen struct {
@@ -349,6 +350,40 @@ func (g *gen) groupClass() {
 	for r := 0; r < 0x3100; r++ {
 		g.emit("preds", strconv.Itoa(r))
 	}
+	for _, r := range classEdges() {
+		g.emit("preds", strconv.Itoa(r))
+	}
+}
+
+// every code point at which the real predicates change value, and every edge of the reference
+// tables (data/ucd13/ref_edges.txt, written by tools/ucd/mkref.py), each with its neighbours
+func classEdges() []int {
+	seen := map[int]bool{}
+	var out []int
+	add := func(r int) {
+		for _, x := range []int{r - 1, r, r + 1} {
+			if x >= -1 && x <= 0x110000 && !seen[x] {
+				seen[x] = true
+				out = append(out, x)
+			}
+		}
+	}
+	prev := vh.GemPreds(0)
+	for r := 1; r <= 0x10FFFF; r++ {
+		m := vh.GemPreds(rune(r))
+		if m != prev {
+			add(r)
+			prev = m
+		}
+	}
+	if b, err := os.ReadFile("/verif/data/ucd13/ref_edges.txt"); err == nil {
+		for _, f := range strings.Fields(string(b)) {
+			if n, err := strconv.ParseInt(f, 16, 64); err == nil {
+				add(int(n))
+			}
+		}
+	}
+	return out
 }
 
 func (g *gen) groupProbe() {
@@ -366,6 +401,9 @@ func (g *gen) groupProbe() {
 	}
 	for i := 0; i < 30000; i++ {
 		g.emit("probe", strconv.Itoa(g.r.Intn(0x110000+600)-300))
+	}
+	for _, r := range classEdges() {
+		g.emit("probe", strconv.Itoa(r))
 	}
 	// every range edge of the source tables +-1 is hit by the translator's validation; here: edges of
 	// the reference tables are covered by the random sample only statistically
@@ -500,7 +538,11 @@ func (g *gen) groupCommit(n int) {
 				case 5:
 					st = append(st, fmt.Sprintf("align,%d,%d,%d,%s", cur, 1+g.r.Intn(3), g.width(), g.optsArg(o)))
 				case 6:
-					st = append(st, fmt.Sprintf("indent,%d,%d,%s", cur, 1+g.r.Intn(2), g.optsArg(o)))
+					if g.chance(0.5) {
+						st = append(st, fmt.Sprintf("justify,%d,%d,%s", cur, g.width(), g.optsArg(o)))
+					} else {
+						st = append(st, fmt.Sprintf("indent,%d,%d,%s", cur, 1+g.r.Intn(2), g.optsArg(o)))
+					}
 				default:
 					st = append(st, fmt.Sprintf("apply,%d,%d,%s", cur, g.r.Intn(7), g.optsArg(o)))
 				}
@@ -612,6 +654,17 @@ func (g *gen) groupLayout(n int, which string) {
 		mode := g.modeFor()
 		o, ls, ps := g.opts(mode)
 		t := g.text(mode, ls, ps)
+		edOpts := o
+		if g.chance(0.3) {
+			// the Editor carries other Options than the call: XOpts must use the call's
+			edOpts, _, _ = g.opts(mode)
+		}
+		defer1 := func(step string) {
+			if edOpts != o && strings.HasSuffix(step, ",=") {
+				step = strings.TrimSuffix(step, "=") + encOpts(o)
+			}
+			g.emit("prog", g.editStep(t, edOpts)+";"+step)
+		}
 		var step string
 		switch which {
 		case "collapse":
@@ -629,7 +682,7 @@ func (g *gen) groupLayout(n int, which string) {
 		case "indent":
 			step = fmt.Sprintf("indent,0,%d,%s", g.r.Intn(5)-1, g.optsArg(o))
 		}
-		g.emit("prog", g.editStep(t, o)+";"+step)
+		defer1(step)
 	}
 }
 
@@ -1039,6 +1092,8 @@ func (g *gen) groupHist(n int, steps int, withReverse bool) {
 		{0x1F468, 0x200D, 0x1F469, 0x200D, 0x1F467, 'z'}, {0x0d, 0x0a, 0x0d}, {' ', 0x301, ' ', 'q', ' '},
 		{0x600, 'a', 0x600}, {0x1100, 0x1161, 0x11a8, 0xac01, 0x11a8}, {-5, 0x110000, 0xD800, 'k'}, {0x93f, 0x915, 0x93f},
 		{' ', ' ', 'a', ' '}, {'\t', 0xa0, 'b'},
+		{'a', 'b', 0x1F469, 0x200D}, {0x1F4BB, 'c', 'd'}, {0x1F469, 0xFE0F, 0x200D}, {0x1F1E9}, {0x1F1EA, 'x'},
+		{'q', 0x0d}, {0x0a, 'r'}, {0x1100}, {0x1161, 0x11a8}, {'e'}, {0x301, 0x301},
 	}
 	pieces := [][]rune{{'X'}, {0x301}, {0x200d, 0x1F467}, {0x1F1E9}, {' '}, {'y', 0x308}, {0x0a}, {0x600}}
 	for i := 0; i < n; i++ {
